@@ -6,7 +6,9 @@
   * a failed body never yields an OK result, whatever the hooks;
   * `ControlEnvironment` (`controlRpc`) after a failed transition always ends in ERROR;
   * the classification of responses against `allCriticalAcked`;
-  * the status product of the root role.
+  * the status product of the root role;
+  * the roster under executor / agent loss: `GetTask` by task id finds the same task (same traits) whatever FAILURE
+    events were handled, so the classification of a command's responses does not depend on them.
 -/
 import ControlModel.Proofs.Env
 import ControlModel.Spec.C02
@@ -266,5 +268,117 @@ theorem deployBody_ok (ls : List (Bool × Launch)) (calls : Nat) (lost : Bool) :
       rcases hs with ⟨l, hl, rfl⟩ | ⟨_, rfl⟩
       · exact (leafStatus_active _ _).2 (hall l hl)
       · rfl
+
+/-! ### the roster under executor / agent loss -/
+
+theorem getTask_map (f : RTask → RTask) (hf : ∀ t, (f t).taskId = t.taskId) (r : List RTask) (id : Nat) :
+    getTask (r.map f) id = (getTask r id).map f := by
+  induction r with
+  | nil => rfl
+  | cons t r ih =>
+    simp only [getTask, List.map_cons, List.find?_cons] at ih ⊢
+    rw [hf t]
+    cases h : (t.taskId == id)
+    · simpa using ih
+    · simp
+
+theorem getTask_applyLoss (l : LossEv) (r : List RTask) (id : Nat) :
+    (getTask (applyLoss l r) id).map (·.critical) = (getTask r id).map (·.critical) := by
+  cases l with
+  | executor x =>
+    simp only [applyLoss, handleExecutorFailed]
+    rw [getTask_map _ (by intro t; split <;> rfl)]
+    cases getTask r id with
+    | none => rfl
+    | some t => simp only [Option.map_some]; split <;> rfl
+  | agent a =>
+    simp only [applyLoss, handleAgentFailed]
+    rw [getTask_map _ (by intro t; split <;> rfl)]
+    cases getTask r id with
+    | none => rfl
+    | some t => simp only [Option.map_some]; split <;> rfl
+
+theorem getTask_applyLosses (L : List LossEv) (r : List RTask) (id : Nat) :
+    (getTask (applyLosses L r) id).map (·.critical) = (getTask r id).map (·.critical) := by
+  induction L generalizing r with
+  | nil => rfl
+  | cons l L ih =>
+    simp only [applyLosses, List.foldl_cons] at ih ⊢
+    rw [ih (applyLoss l r), getTask_applyLoss]
+
+theorem critOfFailed_eq (r : List RTask) (k : CmdTarget) :
+    critOfFailed r k = ((getTask r k.taskId).map (·.critical)).getD false := by
+  unfold critOfFailed; cases getTask r k.taskId <;> rfl
+
+theorem isCriticalTarget_eq (r : List RTask) (k : CmdTarget) :
+    isCriticalTarget r k = ((getTask r k.taskId).map (·.critical)).getD true := by
+  unfold isCriticalTarget; cases getTask r k.taskId <;> rfl
+
+theorem critOfFailed_applyLosses (L : List LossEv) (r : List RTask) (k : CmdTarget) :
+    critOfFailed (applyLosses L r) k = critOfFailed r k := by
+  rw [critOfFailed_eq, critOfFailed_eq, getTask_applyLosses]
+
+theorem isCriticalTarget_applyLosses (L : List LossEv) (r : List RTask) (k : CmdTarget) :
+    isCriticalTarget (applyLosses L r) k = isCriticalTarget r k := by
+  rw [isCriticalTarget_eq, isCriticalTarget_eq, getTask_applyLosses]
+
+theorem classifyR_applyLosses (cfg : Cfg) (L : List LossEv) (r : List RTask) (es : List (CmdTarget × Bool)) :
+    classifyR cfg (applyLosses L r) es = classifyR cfg r es := by
+  match es with
+  | [] => rfl
+  | [e] => simp only [classifyR, isCriticalTarget_applyLosses]
+  | e :: e' :: es => simp only [classifyR, critOfFailed_applyLosses]
+
+/-- A commanded roster task is found again by its id, whatever happened to the roster's executor / agent ids. -/
+theorem getTask_of_mem (r : List RTask) (t : RTask)
+    (huniq : ∀ t ∈ r, ∀ t' ∈ r, t.taskId = t'.taskId → t = t') (ht : t ∈ r) : getTask r t.taskId = some t := by
+  unfold getTask
+  cases h : r.find? (fun x => x.taskId == t.taskId) with
+  | none =>
+    have := List.find?_eq_none.1 h t ht
+    simp at this
+  | some t' =>
+    have hm := List.mem_of_find?_eq_some h
+    have hp := List.find?_some h
+    have : t'.taskId = t.taskId := by simpa using hp
+    rw [huniq t' hm t ht this]
+
+theorem commitR_any (r : List RTask) (cs : List (RTask × Outcome))
+    (huniq : ∀ t ∈ r, ∀ t' ∈ r, t.taskId = t'.taskId → t = t') (hcs : ∀ c ∈ cs, c.1 ∈ r) :
+    (commitR cs).any (fun x => critOfFailed r x.1 && x.2) = (commit (plainTargets cs)).any (fun e => e.1 && e.2) := by
+  induction cs with
+  | nil => rfl
+  | cons c cs ih =>
+    have h1 := getTask_of_mem r c.1 huniq (hcs c (List.mem_cons_self ..))
+    have ih' := ih (fun c' hc' => hcs c' (List.mem_cons_of_mem _ hc'))
+    simp only [commitR, commit, plainTargets, List.map_cons, List.any_cons] at ih' ⊢
+    rw [ih']
+    simp [critOfFailed, RTask.target, h1]
+
+theorem classifyR_plain (cfg : Cfg) (r : List RTask) (cs : List (RTask × Outcome)) (h : RosterOk r cs) :
+    classifyR cfg r (commitR cs) = classify cfg (consolidate (commit (plainTargets cs))) := by
+  obtain ⟨huniq, hcs⟩ := h
+  match cs, hcs with
+  | [], _ => rfl
+  | [c], hcs =>
+    have h1 := getTask_of_mem r c.1 huniq (hcs c (List.mem_cons_self ..))
+    simp [classifyR, commitR, commit, plainTargets, consolidate, classify, isCriticalTarget, RTask.target, h1]
+  | c :: c' :: cs, hcs =>
+    have := commitR_any r (c :: c' :: cs) huniq hcs
+    simp only [commitR, commit, plainTargets, List.map_cons] at this ⊢
+    simp only [classifyR, consolidate, classify]
+    rw [this]
+
+theorem plainTargets_isEmpty (cs : List (RTask × Outcome)) : (plainTargets cs).isEmpty = cs.isEmpty := by
+  cases cs <;> rfl
+
+/-- The body computed on the roster, with any FAILURE events handled while the command is outstanding, is the body
+    computed from (critical, outcome) alone. -/
+theorem bodyForR_eq (cfg : Cfg) (e : Ev) (r : List RTask) (cs : List (RTask × Outcome)) (L : List LossEv)
+    (h : RosterOk r cs) : bodyForR cfg e r cs L = bodyFor cfg e (plainTargets cs) := by
+  have hc := classifyR_plain cfg r cs h
+  cases e <;>
+    simp only [bodyForR, bodyFor, configureBody, commandBody, configureTasksR, configureTasks, transitionTasksR,
+      transitionTasks, classifyR_applyLosses, hc, plainTargets_isEmpty]
 
 end Trans
